@@ -480,6 +480,7 @@ fn add_shadow(a: &mut ShadowStats, b: &ShadowStats) {
     a.max_aux = a.max_aux.max(b.max_aux);
     a.configs_checked += b.configs_checked;
     a.model_capped += b.model_capped;
+    a.progress_capped += b.progress_capped;
 }
 
 /// One job = one seed: a block of histories and a block of shadowed VM runs.
@@ -677,7 +678,7 @@ pub fn replay(case: &Value) -> Option<(String, String)> {
 pub fn run(opts: &Opts) -> i32 {
     let t0 = now();
     let thorough = opts.tier == Tier::Thorough;
-    let n = if opts.budget > 0 { opts.budget } else if thorough { 12_000 } else { 600 };
+    let n = if opts.budget > 0 { opts.budget } else if thorough { 400_000 } else { 5_000 };
     let seed = opts.seed;
     let known = load_known_findings();
 
